@@ -1663,6 +1663,9 @@ func (g *gen) queryDraft(kind string) *draft {
 	case "fees":
 		d.set("prov", g.qProvider())
 	case "params":
+	case "schema":
+		names := []string{"pricing", "result", "Pricing", "RESULT", "pRiCiNg", "schema", "results", "-", "input"}
+		d.set("name", names[g.r.Intn(len(names))])
 	}
 	return d
 }
